@@ -425,7 +425,7 @@ def _replay_at(cfg, env):
     from harness import pipeline as pl
 
     try:
-        calls, pen, _, _ = float_run(cfg, env)
+        calls, pen, _, _scheme = float_run(cfg, env)
     except Exception as ex:  # noqa: BLE001
         return True, f"objective evaluation raised {type(ex).__name__}: {ex} (config {cfg['name']})"
     want = expected_penalty_float(cfg, env)
@@ -452,6 +452,19 @@ def _replay_at(cfg, env):
             unused.remove(hit[0])
     if len(pen) != len(want):
         return True, f"config {cfg['name']}: penalty vector has {len(pen)} entries, documented objective has {len(want)}"
+    # a second optimizer on the same scheme objects must see the same problem (inputs are not consumed)
+    try:
+        from glotaran.optimization.optimizer import Optimizer as _Opt
+
+        with warnings.catch_warnings():
+            warnings.simplefilter("ignore")
+            pen2 = np.asarray(_Opt(_scheme, verbose=False).calculate_penalty(), dtype=float)
+        if len(pen2) != len(pen) or not np.allclose(pen2, pen, rtol=1e-9, atol=1e-12):
+            worst = int(np.argmax(np.abs(pen2 - pen))) if len(pen2) == len(pen) else -1
+            return True, (f"config {cfg['name']}: a second Optimizer on the same scheme gives a different penalty vector "
+                          f"(entry {worst}: {pen[worst]!r} then {pen2[worst]!r}) - the first evaluation changed its inputs")
+    except Exception as ex:  # noqa: BLE001
+        return True, f"config {cfg['name']}: second Optimizer on the same scheme raised {type(ex).__name__}: {ex}"
     bad = [i for i in range(len(pen)) if abs(pen[i] - want[i]) > 1e-7 * max(1.0, abs(want[i]))]
     if bad:
         i = bad[0]
